@@ -2,3 +2,5 @@
 //! serde (C17), constructors (C06), faults (C07), uninitialised construction (C15).
 pub mod c16;
 pub mod cmp;
+#[cfg(feature = "serde")]
+pub mod serde_eng;
